@@ -81,3 +81,6 @@ Definition s_step (c : sclient) (o : op) : option obs * sclient :=   (* None = t
       end
   end.
 
+
+Fixpoint s_run (sc : sclient) (ops : list op) : list (option obs) :=
+  match ops with [] => [] | o :: t => let '(w, sc') := s_step sc o in w :: s_run sc' t end.
